@@ -281,7 +281,9 @@ func connectable(l *cert, rs, is []*cert) bool {
 	return false
 }
 
-var dnsAlphabet = []string{"", "www.example.test", "WWW.EXAMPLE.TEST", "www.example.test.", "foo.example.test", "a.b.example.test", "example.test", "other.test", "10.0.0.1", "[10.0.0.1]", "10.0.0.2", "[2001:db8::1]", "alt.example.test", "wwwXexample.test"}
+var dnsAlphabet = []string{"", "www.example.test", "WWW.EXAMPLE.TEST", "www.example.test.", "foo.example.test", "a.b.example.test", "example.test", "other.test", "10.0.0.1", "[10.0.0.1]", "10.0.0.2", "[2001:db8::1]", "alt.example.test", "wwwXexample.test",
+	// names that only a Unicode-aware comparison would equate with www.example.test (long s, Kelvin sign do not occur in ASCII host names)
+	"www.example.te\u017ft", "WWW.EXAMPLE.TE\u017fT", "www.e\u212aample.test"}
 
 var usageAlphabet = [][]gx509.ExtKeyUsage{nil, {gx509.ExtKeyUsageClientAuth}, {gx509.ExtKeyUsageAny}, {gx509.ExtKeyUsageServerAuth, gx509.ExtKeyUsageClientAuth}, {gx509.ExtKeyUsageCodeSigning},
 	{gx509.ExtKeyUsageEmailProtection}, {gx509.ExtKeyUsageMicrosoftServerGatedCrypto}, {gx509.ExtKeyUsageEmailProtection, gx509.ExtKeyUsageCodeSigning}}
